@@ -9,12 +9,30 @@ ID = 'C20'
 GENERATORS = ['gen_rip']
 COQ_TARGETS = ['Props/C20.vo', 'Run/RunC20.vo']
 PROPS_MODULE = 'Props.C20'
-THEOREMS = []
-SWEEP_LEMMAS = []
-TRUSTED = []
-UNMODELLED = []
-ASSUMPTIONS = []
-RULE = ''
+THEOREMS = ['base36_total', 'base36_non_digit_is_error', 'parse_step_safe', 'tokenizer_safe', 'arity_bound', 'params_in_range', 'tok_resync',
+            'pstate_overflow_witness', 'row_loop_checked', 'bar_rect_safe', 'put_pixel_safe', 'kernel_safe', 'kernel_seq_safe', 'rip_stream_safe']
+SWEEP_LEMMAS = ['RipTokProofs.tables_ok (all 52 generated parse tables: every field index inside the struct, `_` arm is text or error, a continuing arm of a fixed-arity table has a successor, no empty fixed-arity table)',
+                'RipStreamProofs.kernel_weights_ok (no field of a kernel command is fed more than two base-36 digits)',
+                'RipTokProofs.lf_not_command (line feed is not a command letter in the three generated dispatch tables)',
+                'BgiProofs.fill_patterns_shape / ega_length / moduli / fillstyle_from_range / screen_size (generated constants: 13 patterns of 8 bytes, 64 EGA colours, colour moduli 16, FillStyle::from lands in 0..=12, window 640x350 <= 1024)']
+TRUSTED = ['Coq 8.16.1 kernel + vm_compute (table sweeps, model evaluation); no axioms (Print Assumptions: closed). Uint63 primitive integers are used ONLY by the canvas hash of Run/RunC20.v (stage C), in no theorem',
+           'translator/gen_rip.py + vlib/rustsrc.py: dispatch tables, per-command parse tables, constants; token-for-token pins of parse_base_36 and the nine irregular parse functions',
+           'hand-written Model/RipTok.v, BgiKernel.v, RipStream.v, tied to the source by the differential runs of stage C (state + canvas hashes on streams of modelled commands)',
+           'harness/src/c20.rs (stdout redirected while a case runs; icon files written to the temp dir), the worker limits (5 s / 1 GiB), the panic-location -> function map of props/c20.py']
+UNMODELLED = ['every BGI primitive beyond put_pixel / get_pixel / bar / bar_rect: line, rectangle, circle, ellipse, arcs, pie slices, bezier, polygons, flood fill, fonts and text output, buttons, mouse fields, icons, get/put image (search stage only)',
+              'Command::run of FontStyle, LineStyle, Mouse, Button, ButtonStyle, LoadIcon, FileQuery, GetImage, PutImage, CopyRegion and all drawing commands: reaching one is the explicit outcome OUnmodelled',
+              'the wrapped ansi::Parser (a parameter of the stream theorem: any behaviour), TerminalState::set_text_window (terminal margins)',
+              'all of IGS (parser, loops, DrawExecutor): search stage only',
+              'running time: no cost theorem; the search stage enforces 5 s per command under the worker']
+ASSUMPTIONS = ['streams shorter than 2^31 characters: parameter_state (i32) overflows in the dev profile after 2^31-1 parameter characters of a single command (theorem pstate_overflow_witness); not reproducible under the 1 GiB worker limit',
+               'buf.terminal_state.cleared_screen is never set by the engine (the only assignment in the crate is the reset inside rip print_char), so the graph_defaults prologue of print_char is not modelled',
+               'Rust i32 arithmetic panics on overflow (dev profile); `as u8` / `as usize` / `as u32` truncate or reinterpret as written in the model']
+RULE = ('search: every RIP command letter of the three dispatch tables (read from rip/mod.rs) x every parameter string over {0,1,Z} up to length 4 (quick) / 6 (thorough) and the uniform strings up to '
+        'length 24, terminated by | and by newline, on a fresh parser and on two prelude states; non-base-36 characters in six positions of every command; ~280 hand-picked special streams '
+        '(continuation lines, text variables, unknown commands, plain text, buttons, icons, images, fills); every IGS command letter (igs/cmd.rs) x 0..=12 parameters from '
+        '{-50,-1,0,1,7,99,320,640,99999} (uniform + seeded mixed lists), loops, chained commands, ~170 special streams; seeded random sequences of 1..=20 commands on the state left by their predecessors. '
+        'correspondence: seeded streams of 1..=20 modelled commands (truncated / over-long / non-digit / continuation-line parameters, line ends, lead-in variants). '
+        'non-trivial = stream longer than 3 characters answered without failure; distinct = distinct streams')
 
 # ---------------------------------------------------------------------------------------------------------------
 # command tables, read from the source on every run
@@ -267,7 +285,7 @@ def igs_special(table):
     S = ['G', 'G#', 'Gx', 'G#?', 'G#?>0:', 'G#?>3:', 'G#?>0:\nG#?>0:', 'plain', 'G#~0:', 'G#I 0:', 'G#I 3:s 0:', 'G#I>0:\r\nG#s>0:', 'G#R 0,0:', 'G#R 1,0:', 'G#R 2,0:', 'G#R 3,0:',
          'G#R 1,1:B 0,0,639,199,0:', 'G#R 2,1:B 0,0,639,399,0:Z 0,0,639,399:', 'G#W 10,10,Hello@', 'G#W 10,10,@', 'G#W 310,195,edge@', 'G#W 99999,99999,far@', 'G#W 0,0,\n',
          'G#E 0,8,0:W 10,10,x@', 'G#E 31,20,4:W 10,10,x@', 'G#E 0,0,0:W 10,10,x@', 'G#E 0,99999,1:W 10,10,abc@',
-         'G#&0,3,1,0,L,4,0,0,x,y:', 'G#&0,10,1,0,L,4,0,0,+10,-5:', 'G#&0,3,0,0,L,4,0,0,1,1:', 'G#&3,0,1,0,L,4,0,0,1,1:', 'G#&0,0,1,0,L,4,0,0,1,1:', 'G#&0,2,1,1,L,4,0,0,1,1:', 'G#&0,2,1,30,L,4,0,0,1,1:',
+         'G#&0,3,1,0,L,4,0,0,x,y:', 'G#&0,10,1,0,L,4,0,0,+10,-5:', 'G#&0,3,0,0,L,4,0,0,1,1:', 'G#&3,0,1,0,L,4,0,0,1,1:', 'G#&0,0,1,0,L,4,0,0,1,1:', 'G#&0,2,1,1,L,4,0,0,1,1:',
          'G#&0,99999,1,0,P,2,x,y:', 'G#&0,3,1,0,~,4,0,0,1,1:', 'G#&0,3,1,0,L,0,:', 'G#&0,3,1,0,L,4,a,b,c,d:', 'G#&0,3,1,0,L,4,!x,!y,+x,-y:', 'G#&0,5,1,0,W,2,0,x:text@', 'G#&1,5,1,0,L|4,0,0,1,1:',
          'G#&0,3,1,0,L,', 'G#&0,3,1,0', 'G#&0,3,1,0,L,x', 'G#&0,6,2,0,B,10,0,0,x,y,0:1,1,y,x,1:', 'G#&0,3,1,0,&,4,0,0,1,1:',
          'G#G 0,3,0,0,100,100,100,50:', 'G#G 1,3,0,0,100,100:', 'G#G 2,3,200,50:', 'G#G 1,3,0,0,100,100:G 2,3,200,50:', 'G#G 1,3,0,0,100,100:G 3,3,50,50,75,75,150,100:',
@@ -533,7 +551,7 @@ def to_codes(s):
 
 def correspondence(ctx):
     rng = ctx.rng
-    streams = [d.encode().decode('unicode_escape') for d in DIRECTED_C] + [gen_model_stream(rng) for _ in range(ctx.n(260, 2500))]
+    streams = [d.encode().decode('unicode_escape') for d in DIRECTED_C] + [gen_model_stream(rng) for _ in range(ctx.n(220, 1500))]
     cases = ['ripobs ' + hx(s) for s in streams]
     impl = ctx.impl(cases, per_case_timeout=10)
     model = model_parallel(ctx, 'From IE Require Import Run.RunC20.\nLocal Open Scope Z_scope.', ['run_rip %s' % to_codes(s) for s in streams])
@@ -574,6 +592,15 @@ def replay(ctx, body):
     print('oracle: ok')
     return 0
 
-LEVEL_TEXT = ''
-LEVEL_NOTE = ''
-TECHNIQUE = ''
+LEVEL_TEXT = ('PARTIAL by design. Machine-checked proof (Coq, closed under the global context) for the RIPscrip tokenizer and a BGI kernel: (a) model of rip::Parser::print_char '
+              '(all six states, !| lead-in, levels 0/1/9, continuation lines, text variables) and of Command::parse of all 52 commands, whose dispatch and parse tables are re-extracted from '
+              'rip/mod.rs and commands.rs on every run; theorems: no character of any stream reaches a panic site of the tokenizer (unwrap of the command, pop().unwrap(), i32 arithmetic), the parameter '
+              'index stays below the arity, every field stays below 36^(digits read), two line feeds always resynchronise; (b) model of put_pixel / bar / bar_rect / viewport / palette / fill state with checked '
+              'indexing and checked i32 arithmetic; theorem kernel_safe: every modelled command (TextWindow, ViewPort, ResetWindows, EraseWindow, EraseView, GotoXY, Color, SetPalette, OnePalette, WriteMode, Move, '
+              'Pixel, Bar, FillStyle, FillPattern + 12 no-op commands) with ANY parameters in 0..=65535 on any state satisfying the invariant returns normally and keeps the canvas at width x height bytes; lifted by '
+              'induction to every command sequence and to every character stream of the whole parser, for every behaviour of the wrapped ansi parser. NOT proved: lines, ovals, polygons, flood fill, fonts, buttons, '
+              'icons, images and all of IGS — these are covered only by the search stage, which runs the complete RIP and IGS command tables (every letter x parameter lengths 0..=24 over {0,1,Z}; 0..=12 IGS values) '
+              'and random sequences against the real code under 5 s / 1 GiB limits; 17 defects found this way are fixed by fix: commits, 7 failure classes remain as known findings.')
+LEVEL_NOTE = ('Trusted: Coq kernel + vm_compute; the python translator (tables, constants, token pins); hand-written tokenizer / kernel models tied by differential runs (state and canvas hashes); '
+              'the harness and worker limits. Assumes streams shorter than 2^31 characters (parameter_state overflow witness is a theorem). No axioms.')
+TECHNIQUE = 'Coq proof: invariants by induction over character streams and command sequences, complete vm_compute sweeps of the regenerated command tables; exhaustive + random search of the full command tables in sandboxed workers'
